@@ -74,6 +74,7 @@ let fsm_case (delay_open : bool) (hold : int) (ap : String.t) (steps : String.t)
                  | Some m -> (match handle_msg st m with (st', ODone) -> go (k - 1) st' | r -> r)
                  | None -> (st, OErr)) in
             go (int_of_string n) cur
+          | ["G"] -> (cur, ODone)                 (* re-applying the negotiated configuration changes nothing *)
           | ["A"; _] -> attach_stream cur          (* the octets only make the new socket readable *)
           | ["c"] | ["c"; _] -> (upd_st (upd_conn (push_app cur AConnLost) false) SConnect, ODone)
           | _ -> failwith "step" in
